@@ -1053,7 +1053,7 @@ func extractByronTransactionOffsets(
 	cborData []byte,
 	blockArray []cbor.RawMessage,
 ) (*BlockTransactionOffsets, error) {
-	arrayHeaderSize := cborArrayHeaderSize(len(blockArray))
+	arrayHeaderSize := cborArrayHeaderSizeOf(cborData, len(blockArray))
 
 	// blockArray[0] = header, blockArray[1] = body, blockArray[2] = extra
 	headerOffset := arrayHeaderSize
@@ -1083,11 +1083,11 @@ func extractByronTransactionOffsets(
 
 	// Calculate the absolute offset of the tx_payload array within the block.
 	// body starts at bodyOffset, body is an array: [tx_payload, ssc, dlg, upd]
-	bodyArrayHeader := cborArrayHeaderSize(len(bodyParts))
+	bodyArrayHeader := cborArrayHeaderSizeOf(blockArray[1], len(bodyParts))
 	txPayloadOffset := bodyOffset + bodyArrayHeader // tx_payload is bodyParts[0]
 
 	// The tx_payload itself is an array of transaction pairs
-	txPayloadArrayHeader := cborArrayHeaderSize(len(txPayload))
+	txPayloadArrayHeader := cborArrayHeaderSizeOf(bodyParts[0], len(txPayload))
 	// Check for indefinite-length array
 	txPayloadAbsStart := int(txPayloadOffset)
 	if txPayloadAbsStart < len(cborData) && cborData[txPayloadAbsStart] == 0x9f {
@@ -1115,7 +1115,7 @@ func extractByronTransactionOffsets(
 		}
 
 		// Each pair is a 2-element CBOR array: [tx_body, tx_witnesses]
-		pairArrayHeader := cborArrayHeaderSize(len(txPair))
+		pairArrayHeader := cborArrayHeaderSizeOf(rawPair, len(txPair))
 		// Check for indefinite-length pair array
 		pairAbsStart := int(pairPos)
 		if pairAbsStart < len(cborData) && cborData[pairAbsStart] == 0x9f {
@@ -1178,7 +1178,7 @@ func extractByronOutputOffsets(
 
 	// Calculate offset to the outputs array within the block.
 	// Skip: body array header + inputs element
-	bodyArrayHeader := cborArrayHeaderSize(len(bodyParts))
+	bodyArrayHeader := cborArrayHeaderSizeOf(bodyData, len(bodyParts))
 	// Check for indefinite-length body array
 	if len(bodyData) > 0 && bodyData[0] == 0x9f {
 		bodyArrayHeader = 1
@@ -1187,7 +1187,7 @@ func extractByronOutputOffsets(
 	outputsAbsOffset := bodyOffset + uint32(bodyArrayHeader) + inputsLen
 
 	// Determine outputs array header size
-	outputsArrayHeader := uint32(cborArrayHeaderSize(len(outputsRaw)))
+	outputsArrayHeader := cborArrayHeaderSizeOf(bodyParts[1], len(outputsRaw))
 	outputsArrayStart := int(outputsAbsOffset - bodyOffset)
 	if outputsArrayStart >= 0 && outputsArrayStart < len(bodyData) && bodyData[outputsArrayStart] == 0x9f {
 		outputsArrayHeader = 1 // indefinite-length
@@ -1524,7 +1524,7 @@ func ExtractTransactionOffsets(cborData []byte) (*BlockTransactionOffsets, error
 	// Shelley+ block layout: [header, tx_bodies[], witnesses[], metadata_map, ...]
 	// Calculate header size by finding where blockArray[0] starts
 	// CBOR array header is 1 byte for arrays < 24 elements, more for larger
-	arrayHeaderSize := cborArrayHeaderSize(len(blockArray))
+	arrayHeaderSize := cborArrayHeaderSizeOf(cborData, len(blockArray))
 
 	// blockArray[0] is the header, blockArray[1] is tx bodies, blockArray[2] is witnesses
 	// blockArray[3] is metadata (if present)
@@ -1585,7 +1585,7 @@ func ExtractTransactionOffsets(cborData []byte) (*BlockTransactionOffsets, error
 	if int(txBodiesOffset) < len(cborData) && cborData[txBodiesOffset] == 0x9f {
 		bodiesArrayHeader = 1
 	} else {
-		bodiesArrayHeader = cborArrayHeaderSize(len(txBodiesRaw))
+		bodiesArrayHeader = cborArrayHeaderSizeOf(blockArray[1], len(txBodiesRaw))
 	}
 	bodyPos := txBodiesOffset + bodiesArrayHeader
 	for i, rawBody := range txBodiesRaw {
@@ -1607,7 +1607,7 @@ func ExtractTransactionOffsets(cborData []byte) (*BlockTransactionOffsets, error
 	if int(witnessesOffset) < len(cborData) && cborData[witnessesOffset] == 0x9f {
 		witnessArrayHeader = 1
 	} else {
-		witnessArrayHeader = cborArrayHeaderSize(len(witnessesRaw))
+		witnessArrayHeader = cborArrayHeaderSizeOf(blockArray[2], len(witnessesRaw))
 	}
 	witnessPos := witnessesOffset + witnessArrayHeader
 	for i, rawWitness := range witnessesRaw {
@@ -1719,7 +1719,7 @@ func extractOutputOffsets(
 			if arrayStartIdx < len(bodyData) && bodyData[arrayStartIdx] == 0x9f {
 				outputsArrayHeader = 1 // indefinite-length array
 			} else {
-				outputsArrayHeader = uint32(cborArrayHeaderSize(len(outputsRaw)))
+				outputsArrayHeader = cborArrayHeaderSizeOf(bodyData[arrayStartIdx:], len(outputsRaw))
 			}
 
 			// Track position within outputs array
@@ -2109,13 +2109,27 @@ func extractScriptArrayOffsets(scriptArrayData []byte, baseOffset uint32, script
 
 	// Determine header size based on actual encoding
 	// 0x9f indicates indefinite-length array (header = 1 byte)
-	var arrayHeaderSize uint32
-	if scriptArrayData[0] == 0x9f {
-		arrayHeaderSize = 1
-	} else {
-		_, arrayHeaderSize, _ = cborArrayInfo(scriptArrayData)
+	// Skip an optional tag header (Conway+ encodes sets as #6.258([...]))
+	var tagSize uint32
+	if scriptArrayData[0]&0xe0 == 0xc0 {
+		switch ai := scriptArrayData[0] & 0x1f; {
+		case ai < 24:
+			tagSize = 1
+		case ai == 24:
+			tagSize = 2
+		case ai == 25:
+			tagSize = 3
+		case ai == 26:
+			tagSize = 5
+		case ai == 27:
+			tagSize = 9
+		}
+		if int(tagSize) >= len(scriptArrayData) {
+			return
+		}
 	}
-	pos := arrayHeaderSize
+	_, arrayHeaderSize, _ := cborArrayInfo(scriptArrayData[tagSize:])
+	pos := tagSize + arrayHeaderSize
 
 	for _, scriptRaw := range scripts {
 		scriptBytes := []byte(scriptRaw)
@@ -2241,6 +2255,16 @@ func cborMapInfo(data []byte) (int, uint32, bool) {
 	default:
 		return -1, 0, false
 	}
+}
+
+// cborArrayHeaderSizeOf returns the size of the array header that data actually
+// starts with (any definite width or the 1-byte indefinite header). It falls back to
+// the shortest header for n elements when data does not start with an array header.
+func cborArrayHeaderSizeOf(data []byte, n int) uint32 {
+	if _, size, _ := cborArrayInfo(data); size > 0 {
+		return size
+	}
+	return cborArrayHeaderSize(n)
 }
 
 // cborArrayHeaderSize returns the CBOR header size in bytes for an array of given length.
